@@ -11,7 +11,7 @@ from mc.core import viol
 ID = 'C17'
 LEVEL = 'model_checking'
 RULE = ('(a) exhaustive decision table skipped x rate{0,.3,1,1.5} x force{none,operation,body} x ignore-forcing x discard{none,before,after '
-        'force} x outcome{return,raise,interrupt} x scripted draw{0,rate-e,rate,rate+e,.999}; (b) explicit-state search over histories of '
+        'force} x outcome{return,raise,interrupt} x scripted draw{0,rate-e,rate,rate+e,.999} (+ the rows with a force or a discard repeated with recording switched off mid-run before them); (b) explicit-state search over histories of '
         'runs from three classes with different parameters on ONE recorder (state = canonical recorder fields after each run; closure '
         'reported); (c) seeded histories: same seed twice + a paired history differing only in content and outcome, against '
         'Random(seed); (d) S3 storage-level sampling calculator: ratio x scripted draws, seeded sequence, two cassettes in one process. '
@@ -27,7 +27,7 @@ def bounds(tier):
             'seeded_history_len': 400 if tier == 'quick' else 2000}
 
 
-def row_prog(skipped, rate, force, ignore, discard, outcome):
+def row_prog(skipped, rate, force, ignore, discard, outcome, off=False):
     steps = []
     body_pre = []
     acts = []
@@ -43,6 +43,8 @@ def row_prog(skipped, rate, force, ignore, discard, outcome):
         call['pre'] = ([{'do': 'discard'}] if discard == 'before' else []) + [{'do': 'force'}] + ([{'do': 'discard'}] if discard == 'after' else [])
         steps = [s for s in steps if s['do'] not in ('discard',)]
     steps.append(call)
+    if off:   # the service switches recording off while the operation runs, before any of the decisions is announced
+        steps.insert(0, {'do': 'disable'})
     end = {'ret': 'ret', 'raise': 'raise:E1', 'intr': 'intr'}[outcome]
     return {'steps': steps, 'end': end, 'params': {'rate': rate, 'ignore': ignore, 'skipped': skipped}}
 
@@ -66,6 +68,8 @@ def gen_cases(tier, seed):
                                                                             ('none', 'before', 'after'), ('ret', 'raise', 'intr')):
         for d in (0.0, max(rate - EPS, 0.0), rate, rate + EPS, 0.999):
             yield {'k': 'row', 'row': [skipped, rate, force, ignore, discard, outcome], 'draw': d}
+            if d in (0.0, 0.999) and (force != 'none' or discard != 'none'):
+                yield {'k': 'row', 'row': [skipped, rate, force, ignore, discard, outcome], 'draw': d, 'off': True}
     depth = 2 if tier == 'quick' else 3
     for n in range(1, depth + 1):
         if n < 3:
@@ -104,7 +108,7 @@ def _decide(r, R):
 
 def _row(case):
     skipped, rate, force, ignore, discard, outcome = case['row']
-    prog = row_prog(skipped, rate, force, ignore, discard, outcome)
+    prog = row_prog(skipped, rate, force, ignore, discard, outcome, case.get('off', False))
     R = P.ref(prog, draw=case['draw'])
     r = P.record(prog, draws=[case['draw']])
     viols = []
